@@ -97,6 +97,8 @@ def run(ctx):
     # the property on the real code, OpenSSL as the independent implementation
     ctx.check_props([f"prop.c09 {sel} {d} {eph} {k} 1" for sel, d, eph, k in cases], "prop.c09")
     ctx.check_props([f"prop.c09default {sel} {gb.gen_scalar(rng)} {hx(g.gen_key(rng))}" for sel in (0, 1, 2, 3, 4, 9)], "prop.c09default")
+    ctx.check_props([f"prop.c09hist {sel} {rng.randrange(1 << 40)} {8 if ctx.quick else 30}" for sel in range(4) for _ in range(2 if ctx.quick else 10)],
+                    "prop.c09hist")
     ctx.check_props([f"prop.c09reject {gb.gen_scalar(rng)} {b}" for b in bad], "prop.c09reject")
 
 
